@@ -86,6 +86,8 @@ def cases(tier, seed, i, n):
                 yield dict(kind='noneg', hseed=rnd.randrange(1 << 30), offered=False,
                            unsolicited=('permessage-deflate', 'permessage-deflate; client_max_window_bits=10',
                                         'x-unknown, permessage-deflate; server_no_context_takeover')[(j // 2) % 3])
+                yield dict(kind='noneg', hseed=rnd.randrange(1 << 30), offered=False, unsolicited='permessage-deflate',
+                           falsy=('none', 'zero', 'empty')[(j // 2) % 3])
         reps = 2 if tier == 'quick' else 80
         k = 0
         for rep in range(reps):
@@ -365,7 +367,11 @@ def run_noneg(case, acc):
         # the client offering and the server accepting it)
         hs = dict(extra=[('Sec-WebSocket-Extensions', case['unsolicited'])])
     w = H.World(H.hs_server([], hs))
-    run = H.drive(w, ws_kwargs=dict(compress=case['offered']), connect_kwargs=dict(ping_rate=0), policy=policy)
+    offered = case['offered']
+    if case.get('falsy') is not None:
+        # other ways of saying "no compression": what counts is that the request offers no extension
+        offered = {'none': None, 'zero': 0, 'empty': ''}[case['falsy']]
+    run = H.drive(w, ws_kwargs=dict(compress=offered), connect_kwargs=dict(ping_rate=0), policy=policy)
     reqs, frames, residue, errors = H.client_frames(w.conns[0])
     key = None
     if case.get('unsolicited'):
